@@ -1,10 +1,10 @@
 from pathlib import Path
 from mbv.tlc import run_tlc
+from mbv.props.c15 import _gl_cfg
 sc = Path('/verif/.c15work/tlc'); sc.mkdir(exist_ok=True)
-def cfg(dev, maxlen=3, invs=("HistoryIndependent","ResidueFree","CacheShape")):
-    return ('SPECIFICATION Spec\nCONSTANTS Deviations = {%s}\n Fonts = {"f","g"}\n GidSets = {{1,2},{3,4},{1,2,3}}\n MaxLen = %d\n' % (",".join('"%s"'%d for d in dev), maxlen)
-            + "".join(f"INVARIANT {i}\n" for i in invs))
-r = run_tlc("Globals", cfg([]), scratch=sc); print("ref", r.distinct, r.generated, r.ok)
-r = run_tlc("Globals", cfg(["FontCacheKeyedByFontOnly"], invs=("HistoryIndependent",)), scratch=sc, expect_fail=True); print("font", r.distinct, r.violated); print(r.trace[-1][:600])
-r = run_tlc("Globals", cfg(["PermanentAesPatch"], invs=("HistoryIndependent",)), scratch=sc, expect_fail=True); print("aes", r.distinct, r.violated); print(r.trace[-1][:600])
-r = run_tlc("Globals", cfg(["PermanentAesPatch"], invs=("ResidueFree",)), scratch=sc, expect_fail=True); print("aes", r.distinct, r.violated)
+for dev, inv, exp in (([], ("HistoryIndependent","ResidueFree","CacheShape"), None),
+                 (["PermanentAesPatch"], ("HistoryIndependent",), None),
+                 (["PermanentAesPatch"], ("ResidueFree",), "ResidueFree"),
+                 (["AesPatchOnlyOnOpenFailure"], ("HistoryIndependent","ResidueFree"), None),
+                 (["PermanentAesPatch","AesPatchOnlyOnOpenFailure"], ("HistoryIndependent",), "HistoryIndependent")):
+    r = run_tlc("Globals", _gl_cfg(dev, 3, inv), scratch=sc, expect_fail=True, workers=2); print(dev, inv, r.distinct, r.violated, "expected", exp)
